@@ -1259,6 +1259,7 @@ func (p *Parser) wordPart() WordPart {
 		if ar.Bracket {
 			if p.tok != rightBrack {
 				if p.recoverError() {
+					p.postNested(old)
 					ar.Right = recoveredPos
 					return ar
 				}
